@@ -16,6 +16,15 @@ structured distance d in 1,2,3,8,16,17,64,127,128,129,255,256,257,511,512,513 (t
 to 2049) plus generated distances: counters that are wider than one byte must not be
 compared / advanced modulo anything smaller (sequence number, GCM invocation counter).
 
+Cross-epoch plans: per framing class a stream of 2-3 key epochs (a re-key normally negotiates
+the same suite again: the stream direction keeps its suite at the first re-key and at every
+second later one; new K/H every time), 2-4 packets per epoch (tiny, or 260-400 bytes: longer than any value a padding-length
+byte can take); EVERY pair (packet i of an earlier epoch, packet j of a later
+epoch, NEWKEYS packets included) is enumerated as replay (copy of i inserted as packet j),
+substitution (copy of i instead of j) and swap.  Under strict kex the sequence numbers restart
+at every NEWKEYS, so pairs with the same index inside their epochs carry the SAME sequence
+number under different keys (class same-seq-index): only the keys tell them apart.
+
 Fault plans: exhaustive single-byte XOR (generated non-zero mask per position; thorough adds
 0x01, 0x80, 0xFF), exhaustive single-byte deletion, exhaustive single-byte insertion (generated
 value) at every position of the recorded stream; plus generated multi-fault plans (<= 4 ops
@@ -48,7 +57,13 @@ RULE = (
     "stream of 520-560 (thorough 2060-2100) pairwise different tiny packets, optional mid-stream rekey; packet i (generated) is "
     "replayed at / substituted for / swapped with packet i+d for EVERY d of a structured list (1,2,3,8,16,17,64,127,128,129,255,"
     "256,257,511,512,513; thorough +1023..1025, 2047..2049) plus generated d (all three kinds for d >= 255, one generated kind "
-    "below; classes replay-distance:<d>, replay-distance>=256, replay-distance%256==0). one case = "
+    "below; classes replay-distance:<d>, replay-distance>=256, replay-distance%256==0). Cross-epoch plans (class cross-epoch): per "
+    "framing class (quick: the 11 representatives + 4 with zlib; thorough: all pairs x {none, zlib}) one generated stream of 2-3 key "
+    "epochs x 2-4 packets (each tiny or 260-400 bytes), the stream direction keeps its suite at the first re-key and changes it at every second later one "
+    "(classes suite-kept / suite-changed), strict "
+    "kex in 3 of 4 classes; EVERY (i, j) with packet i in an earlier and packet j in a later epoch x {replay-at, subst-at, swap-at} "
+    "is enumerated (classes same-seq-index = equal index inside the two epochs, i.e. equal sequence number under strict kex; "
+    "xepoch-style:<classic|etm|aead>); the generic stream generator also keeps the suite at every second mid-stream re-key. one case = "
     "(recorded stream, fault plan). non-trivial = the plan changes bytes inside the packets the sender produced (not only "
     "trailing garbage); plans that leave the stream identical are discarded and counted; distinct by SHA-1 of stream+plan"
 )
@@ -263,11 +278,14 @@ def judge(ctx, stream, plan, frags, classes):
 # ----------------------------------------------------------------------------- exploration
 
 
-def _stream_spec_strategy(S, cipher_mac=None, comps=("none", "zlib", "zlib@openssh.com"), rekey=True, role=None, strict=None, other_style=None, long_n=None):
+def _stream_spec_strategy(S, cipher_mac=None, comps=("none", "zlib", "zlib@openssh.com"), rekey=True, role=None, strict=None, other_style=None, long_n=None, xepoch=False):
     """Sender-side description of one stream.  ``cipher_mac``: suite of the direction that
     carries the stream (None = generated); the opposite direction gets its own generated suite
     of style ``other_style`` (None = generated style) in every epoch.  ``long_n`` = (lo, hi):
-    a long stream of lo..hi tiny pairwise different packets instead of the 2-6 packet one."""
+    a long stream of lo..hi tiny pairwise different packets instead of the 2-6 packet one.
+    A mid-stream re-key keeps the suite of the stream direction in every second case (what a real
+    renegotiation does).  ``xepoch``: 2-3 epochs of 2-4 pairwise different packets each (tiny or 260-400 bytes), the
+    suite kept at the first re-key (and at every second later one)."""
     small = S.msg(st.integers(0, 80))
     large = S.msg(st.integers(120, 400))
     msgs1 = st.tuples(st.lists(small, min_size=1, max_size=3), large, st.lists(small, min_size=0, max_size=2)).map(lambda t: t[0] + [t[1]] + t[2])
@@ -290,9 +308,30 @@ def _stream_spec_strategy(S, cipher_mac=None, comps=("none", "zlib", "zlib@opens
         dname = "c2s" if r == "client" else "s2c"
         su = draw(suite)
         epochs = [draw(keys(su, dname))]
+        if xepoch:
+            types = draw(st.lists(st.integers(0, 255), min_size=1, max_size=5))
+            tails = draw(st.lists(st.binary(max_size=3), min_size=1, max_size=7))
+            for ri in range(draw(st.sampled_from([1, 1, 2]))):
+                keep = ri == 0 or draw(st.booleans())
+                epochs.append(draw(keys(su if keep else [draw(S.cipher), draw(S.mac), su[2]], dname)))
+            msgs = []
+            i = 0
+            seed0 = draw(st.integers(0, 1 << 16))
+            for _ in epochs:
+                cur = []
+                for _j in range(draw(st.integers(2, 4))):
+                    # tiny (index + tail) or longer than any padding-length byte (260-400 generated bytes, own seed): pairwise different
+                    if draw(st.booleans()):
+                        cur.append([types[i % len(types)], draw(st.integers(260, 400)), 2, seed0 + i])
+                    else:
+                        cur.append(tiny(i, types[i % len(types)], tails[i % len(tails)]))
+                    i += 1
+                msgs.append(cur)
+            return {"role": r, "strict": strict if strict is not None else draw(st.booleans()), "auth_first": su[2] == "zlib@openssh.com" or draw(st.sampled_from([False, False, True])), "epochs": epochs, "msgs": msgs}
         second = rekey and draw(st.sampled_from([False, False, True]))
         if second:
-            su2 = [draw(S.cipher), draw(S.mac), su[2]]  # same compression name in the stream direction
+            # same compression name in the stream direction; the suite itself is kept in every second case
+            su2 = su if draw(st.booleans()) else [draw(S.cipher), draw(S.mac), su[2]]
             epochs.append(draw(keys(su2, dname)))
         if long_n is None:
             msgs = [draw(msgs1)]
@@ -376,6 +415,40 @@ def long_stream(ctx, stream, structured, generated, raw, frags):
             if judge(ctx, stream, [[kind, i, d]], frags, cls) is False:
                 return False
     ctx.count("long-streams-enumerated")
+    return True
+
+
+def _epoch_of(stream, k):
+    """(epoch index, index inside the epoch) of chunk k; a NEWKEYS packet is the last packet of
+    the epoch whose keys protect it."""
+    starts = [0] + [r + 1 for r in stream["rekey_at"]]
+    e = sum(1 for r in stream["rekey_at"] if r < k)
+    return e, k - starts[e]
+
+
+def cross_epoch(ctx, stream, frags):
+    """Every (i, j), chunk i in an earlier key epoch than chunk j: a copy of i is inserted as
+    packet j (replay-at) / replaces packet j (subst-at) / the two change places (swap-at)."""
+    n = len(stream["chunks"])
+    dname = _dname(stream)
+    base = _classes(stream, ["cross-epoch", "epochs:%d" % len(stream["epochs"])])
+    pairs = 0
+    for i in range(n - 1):
+        ei, pi = _epoch_of(stream, i)
+        for j in range(i + 1, n):
+            ej, pj = _epoch_of(stream, j)
+            if ei == ej:
+                continue
+            a, b = stream["epochs"][ei][dname], stream["epochs"][ej][dname]
+            extra = ["suite-kept" if a[:2] == b[:2] else "suite-changed", "xepoch-style:" + pkt.suite_style(*a[:2])]
+            if pi == pj:
+                extra.append("same-seq-index" if stream["strict"] else "same-index-no-seq-reset")
+            for kind in ("replay-at", "subst-at", "swap-at"):
+                if judge(ctx, stream, [[kind, i, j - i]], frags, base + extra + ["plan:" + kind]) is False:
+                    return False
+            pairs += 1
+    ctx.count("cross-epoch-streams-enumerated")
+    ctx.count("cross-epoch-pairs-enumerated", pairs)
     return True
 
 
@@ -494,7 +567,35 @@ def run(ctx):
             st.one_of(st.just([]), st.just([]), S.frags),
         )
         ctx.explore(lstrat, lbody, 1 + ctx.scale(1, 2), shrink=False, seed_offset=500 + idx)
+    # -- cross-epoch plans: every (earlier-epoch packet, later-epoch packet) pair, every framing class
+    for idx, (cm, z) in enumerate(work):
+        if idx % ctx.nworkers != ctx.worker or ctx.unknown:
+            continue
+        if ctx.out_of_time():
+            complete[0] = False
+            break
+
+        state = {"n": 0}
+
+        def xbody(drawn, state=state):
+            spec, frags = drawn
+            state["n"] += 1
+            if state["n"] == 1:
+                return  # the all-minimal first example
+            stream = _try_record(ctx, pkt.norm_case(spec))
+            if stream is None:
+                complete[0] = False
+                return
+            if cross_epoch(ctx, stream, frags) is False:
+                complete[0] = False
+
+        xstrat = st.tuples(
+            _stream_spec_strategy(S, cm, (z,), role=("client", "server")[idx % 2], strict=idx % 4 != 3, xepoch=True),
+            st.one_of(st.just([]), st.just([]), S.frags),
+        )
+        ctx.explore(xstrat, xbody, 1 + ctx.scale(1, 4), shrink=False, seed_offset=900 + idx)
     ctx.exhaustive = complete[0]
+    ctx.note("cross_epoch", "per framing class a stream of 2-3 key epochs x 2-4 packets (tiny / 260-400 bytes); every (earlier-epoch packet i, later-epoch packet j) pair x {replay-at, subst-at, swap-at} enumerated")
     ctx.note(
         "long_streams",
         "per framing class a stream of %d-%d tiny pairwise different packets; replay-at / subst-at / swap-at of a generated packet i with i+d for every d in %r + %d generated d"
